@@ -412,6 +412,16 @@ func (c *scen) cardSecurityScenarios() {
 		early, err := BuildCardSecurity(NewCardSecuritySpec(ds2, TestSecurityInfos(), time.Date(2019, 6, 1, 0, 0, 0, 0, time.UTC)))
 		c.fail(err)
 		c.add("forgery", "cardsecurity-signer-not-yet-valid-at-its-own-signing-time", "EF.CardSecurity states signing time 2019-06-01, before its DS certificate's notBefore (valid at the signing time of EF.SOD)", sod, nil, nil).CardSec = early
+		// the other way round: a signer certificate that is valid at the card security object's own signing time but
+		// NOT at the signing time of EF.SOD (chip production and personalisation use different signers)
+		if ds3, err := c.csca.IssueDS(CertSpec{Rand: c.sub(42), Subject: DN("NL", "State of the Netherlands", "DS CardSecurity 2"), KeySlot: slotDS2,
+			NotBefore: time.Date(2026, 1, 1, 0, 0, 0, 0, time.UTC), NotAfter: time.Date(2030, 1, 1, 0, 0, 0, 0, time.UTC)}); err != nil {
+			c.fail(err)
+		} else {
+			own, err := BuildCardSecurity(NewCardSecuritySpec(ds3, TestSecurityInfos(), time.Date(2027, 1, 15, 0, 0, 0, 0, time.UTC)))
+			c.fail(err)
+			c.add("genuine", "cardsecurity-ds-valid-only-at-its-own-signing-time", "EF.CardSecurity signed 2027 by a DS valid 2026..2030 (not yet valid at the signing time of EF.SOD)", sod, nil, nil).CardSec = own
+		}
 		ok2, err := BuildCardSecurity(NewCardSecuritySpec(ds2, TestSecurityInfos(), time.Date(2025, 6, 1, 0, 0, 0, 0, time.UTC)))
 		c.fail(err)
 		c.add("genuine", "cardsecurity-second-ds-own-signing-time", "EF.CardSecurity signed by a second DS at another signing time than EF.SOD, both inside their certificates' validity", sod, nil, nil).CardSec = ok2
